@@ -127,6 +127,10 @@ if [ ! -x "$OUT" ]; then
     objcopy --redefine-sym getrandom=verif_os_getrandom --redefine-sym getentropy=verif_os_getentropy --redefine-sym syscall=verif_os_syscall \
             --redefine-sym open=verif_os_open --redefine-sym open64=verif_os_open64 --redefine-sym read=verif_os_read --redefine-sym close=verif_os_close \
             --redefine-sym fcntl=verif_os_fcntl --redefine-sym fcntl64=verif_os_fcntl64 --redefine-sym dup=verif_os_dup \
+            --redefine-sym nanosleep=verif_os_nanosleep --redefine-sym clock_nanosleep=verif_os_clock_nanosleep --redefine-sym usleep=verif_os_usleep \
+            --redefine-sym sleep=verif_os_sleep --redefine-sym sched_yield=verif_os_sched_yield --redefine-sym clock_gettime=verif_os_clock_gettime \
+            --redefine-sym gettimeofday=verif_os_gettimeofday --redefine-sym time=verif_os_time --redefine-sym clock=verif_os_clock \
+            --redefine-sym getpid=verif_os_getpid \
             --redefine-sym malloc=verif_lib_malloc --redefine-sym calloc=verif_lib_calloc --redefine-sym realloc=verif_lib_realloc --redefine-sym free=verif_lib_free \
             --redefine-sym posix_memalign=verif_lib_posix_memalign --redefine-sym aligned_alloc=verif_lib_aligned_alloc "$f"
   done
